@@ -90,12 +90,19 @@ Definition nmem (i : N) (l : list N) : bool := existsb (N.eqb i) l.
 Section Book.
   Variable STOP : N.   (* the literal of nextSchedulable: [tx.seq == STOP] *)
 
-  (* remove (main_queue_scheduler.go:281-294) *)
-  Definition b_remove (t : tx) (s : st) : st :=
-    let l := del_id (tid t) (txs s) in
-    let s1 := set_maxh (set_txs s l) (nremove (tid t) (maxh s)) in
-    if has_sender (tsender t) l then s1
-    else set_senders s1 (adel (tsender t) (senders s1)).
+  (* Removal of all transactions of sender [a] that satisfy [P]; closed form
+     of one or several calls of remove (main_queue_scheduler.go:287-300): the
+     transactions leave txs / sender heap / minHeap / maxHeap, and the sender
+     entry is deleted when its heap became empty through a removal. *)
+  Definition drop (P : tx -> bool) (a : N) (s : st) : st :=
+    let gonep := fun t => (tsender t =? a) && P t in
+    let l := filter (fun t => negb (gonep t)) (txs s) in
+    let gone := map tid (filter gonep (txs s)) in
+    let s1 := set_maxh (set_txs s l) (filter (fun j => negb (nmem j gone)) (maxh s)) in
+    if has_sender a (txs s) && negb (has_sender a l)
+    then set_senders s1 (adel a (senders s1)) else s1.
+
+  Definition b_remove (t : tx) (s : st) : st := drop (fun u => tid u =? tid t) (tsender t) s.
 
   (* insert (296-305) *)
   Definition b_insert (t : tx) (s : st) : st :=
@@ -125,11 +132,11 @@ Section Book.
                let s2 := b_insert t s1 in
                if N.of_nat (length (txs s2)) <=? cap s2 then (COk, s2)
                else match find_id evict (txs s2) with
-                    | None => (CBadChoice, s2)
+                    | None => (CBadChoice, s)
                     | Some low =>
                         if forallb (fun u => tprio low <=? tprio u) (txs s2)
                         then (if tid low =? tid t then CUnderpriced else COk, b_remove low s2)
-                        else (CBadChoice, s2)
+                        else (CBadChoice, s)
                     end
            end
     end.
@@ -142,8 +149,8 @@ Section Book.
         if q <=? c then s
         else
           let s1 := set_senders s (aset a q (senders s)) in
-          let dead := filter (fun t => tseq t <? q) (sender_txs a (txs s1)) in
-          let s2 := fold_left (fun acc t => b_remove t acc) dead s1 in
+          (* the loop pops the sender heap while its minimum is below q *)
+          let s2 := drop (fun t => tseq t <? q) a s1 in
           (* the new head may have become schedulable *)
           match head a (txs s2) with
           | Some f => if negb (nmem (tid f) (maxh s2)) && is_ready s2 f
@@ -205,7 +212,7 @@ Section Book.
     | None => (CBadChoice, s)
     | Some s1 =>
         if (n =? lim) || (match maxh s1 with [] => true | _ => false end)
-        then (COk, s1) else (CBadChoice, s1)
+        then (COk, s1) else (CBadChoice, s)
     end.
 
   (* restoreMaxHeap (241-275) *)
@@ -272,7 +279,7 @@ Definition r_schedule (limit : N) (picks : list N) (s : st) : code * st :=
   | None => (CBadChoice, s)
   | Some s1 =>
       if (n =? lim) || (match ready s1 with [] => true | _ => false end)
-      then (COk, s1) else (CBadChoice, s1)
+      then (COk, s1) else (CBadChoice, s)
   end.
 
 (* The reference ignores [maxh] entirely (it is kept at []). *)
